@@ -239,6 +239,9 @@ impl BitFont {
         let length = length as i32;
         let height = u32::from_le_bytes(data[24..28].try_into().unwrap()) as usize;
         let width = u32::from_le_bytes(data[28..32].try_into().unwrap()) as usize;
+        if height == 0 || width == 0 {
+            return Err(FontError::LengthMismatch(data.len(), expected_len.unwrap_or(usize::MAX)).into());
+        }
 
         let mut r = BitFont {
             name: font_name.into(),
@@ -301,6 +304,10 @@ impl BitFont {
         }
         let magic16 = u16::from_le_bytes(data[0..2].try_into().unwrap());
         if magic16 == BitFont::PSF1_MAGIC {
+            if data[3] == 0 {
+                // a font without rows: every cell-size computation divides by the glyph height
+                return Err(FontError::LengthMismatch(data.len(), 4).into());
+            }
             return Ok(BitFont::load_psf1(font_name, data));
         }
 
